@@ -15,6 +15,7 @@ import (
 	"math/rand"
 	"os"
 	"sync"
+	"sync/atomic"
 	"time"
 
 	"github.com/pkg/errors"
@@ -77,6 +78,11 @@ func bdnOne(seed int64, mode string) bdnResult {
 	if rng.Intn(4) == 0 {
 		ntx = 253 + rng.Intn(3)
 	}
+	if mode == "backlog" {
+		// more transactions than the hand-over channel between the node and the handler holds (1000), and a
+		// processor slower than the peer: the node waits on the full channel when the download ends
+		ntx = 1050 + rng.Intn(300)
+	}
 	txOf := func(i int) *wire.MsgTx {
 		if i <= 16 {
 			return bvTx(i)
@@ -93,6 +99,9 @@ func bdnOne(seed int64, mode string) bdnResult {
 		MerkleRoot: merkleRoot(ids)}
 	hash := *header.BlockHash()
 	proc := newCountingProcessor()
+	if mode == "backlog" {
+		proc.gate = make(chan struct{})
+	}
 	bd := bitcoin_reader.NewBlockDownloader(proc, bitcoin_reader.NewMockBlockTxManager(), hash, 500)
 	if err := s.node.RequestBlock(s.ctx, hash, bd.HandleBlock, bd.Stop); err != nil {
 		res.Msg = "harness: RequestBlock: " + err.Error()
@@ -120,7 +129,7 @@ func bdnOne(seed int64, mode string) bdnResult {
 	firstTx := len(names)
 	for i := 1; i <= ntx; i++ {
 		txOf(i).Serialize(&payload)
-		if i <= 3 || i == ntx {
+		if i <= 3 || i == ntx || (mode == "backlog" && i%50 == 0) {
 			cut = append(cut, 24+payload.Len())
 			names = append(names, fmt.Sprintf("..tx%d", i))
 		}
@@ -151,6 +160,9 @@ func bdnOne(seed int64, mode string) bdnResult {
 	case "silent":
 		// cancel once the handler has started, then the peer says nothing for a while
 		term = ev{"cancel", firstTx + rng.Intn(len(chunks)-firstTx+1)}
+	case "backlog":
+		// issued when the node has stopped taking bytes because the hand-over channel is full
+		term = ev{[]string{"cancel", "peerdrop", "interrupt", "none"}[rng.Intn(4)], -2}
 	}
 	cancelDone := make(chan struct{})
 	cancelIssued := false
@@ -176,6 +188,59 @@ func bdnOne(seed int64, mode string) bdnResult {
 		if d := rng.Intn(4); d > 0 {
 			time.Sleep(time.Duration(rng.Intn(300)) * time.Microsecond)
 		}
+	}
+	if mode == "backlog" {
+		// the whole message is written by a goroutine; the node stops taking bytes once the hand-over channel
+		// is full (the processor is held): that is the moment at which the download is ended
+		var written int32
+		writerDone := make(chan bool, 1)
+		go func() {
+			for _, c := range chunks {
+				s.conn.SetWriteDeadline(time.Now().Add(20 * time.Second))
+				if _, err := s.conn.Write(c); err != nil {
+					writerDone <- false
+					return
+				}
+				atomic.AddInt32(&written, 1)
+			}
+			writerDone <- true
+		}()
+		last, stable := int32(-1), 0
+		finished := false
+		for stable < 20 && !finished {
+			select {
+			case <-writerDone:
+				finished = true
+			case <-time.After(5 * time.Millisecond):
+			}
+			if w := atomic.LoadInt32(&written); w != last {
+				last, stable = w, 0
+			} else {
+				stable++
+			}
+		}
+		if finished {
+			res.Trace = append(res.Trace, "the whole block was taken without a stall")
+		} else {
+			res.Trace = append(res.Trace, fmt.Sprintf("stalled after %s", names[last-1+0]))
+		}
+		if term.kind != "none" {
+			issue()
+			jitter()
+		}
+		close(proc.gate)
+		if !finished {
+			select {
+			case <-writerDone:
+			case <-time.After(10 * time.Second):
+				if !dropped {
+					res.Msg = "the node never took the rest of the block message after the download ended (blocked handing a transaction over?)"
+				}
+				s.conn.Close()
+				dropped = true
+			}
+		}
+		chunks = nil
 	}
 	for i, c := range chunks {
 		if term.at == i {
@@ -210,7 +275,7 @@ func bdnOne(seed int64, mode string) bdnResult {
 		res.Trace = append(res.Trace, names[i])
 		jitter()
 	}
-	if term.at == len(chunks) {
+	if term.at == len(chunks) && mode != "backlog" {
 		issue()
 	}
 
@@ -289,7 +354,7 @@ func bdnMain(args []string) int {
 	count := fs.Int("count", 200, "scenarios per mode")
 	workers := fs.Int("workers", 8, "workers")
 	fs.Parse(args)
-	modes := []string{"complete", "cancel", "peerdrop", "interrupt", "silent"}
+	modes := []string{"complete", "cancel", "peerdrop", "interrupt", "silent", "backlog"}
 	type job struct {
 		seed int64
 		mode string
